@@ -469,11 +469,18 @@ def validate_trace(trace_path, invs, wdir, module="SodTrace", dev=(), timeout=24
             pos = at + 1
             continue
         # attribute: does a listed deviation explain this test?
+        # (one recording may show two listed findings at once - a crash state with a stale index entry AND two files
+        # clashing on a unique value: the smallest set of deviations that explains it is looked for, singles first)
         explained = False
-        for kid, d in known:
-            if run(at, list(dev) + [d], count=1) is None:
-                hits.add(kid)
-                explained = True
+        import itertools
+        for size in range(1, len(known) + 1):
+            for combo in itertools.combinations(known, size):
+                if run(at, list(dev) + [d for _, d in combo], count=1) is None:
+                    for kid, _ in combo:
+                        hits.add(kid)
+                    explained = True
+                    break
+            if explained:
                 break
         if not explained:
             fail(at, idx, evt, inv, tail)
